@@ -81,7 +81,10 @@ PeerClose(s, reset) == [s EXCEPT !.peof = TRUE, !.perr = @ \/ reset]
 (* ---------------------------------------------------------------- tp_task_start_ex *)
 ApiStart(s, direct, typ, every, ev, efl, tmo, foff) ==
   LET c == [typ |-> typ, every |-> every, ev |-> ev, efl |-> efl, tmo |-> tmo, off0 |-> s.buf.off, tr0 |-> s.buf.tr, used0 |-> s.buf.used]
+      \* a start opens a new account: octets a stopped run took from the descriptor without reporting them stay where they
+      \* were stored (the caller sees them through buf->used) and are not counted by the new run's callbacks
       s1 == [s EXCEPT !.cfg = c, !.tot = 0, !.foff = foff, !.stopped = FALSE, !.outw = << >>,
+                      !.deliv = @ \o s.pend, !.pend = << >>,
                       !.q = IF typ = "rw" /\ ev = READ THEN SubSeq(s.sent, foff + 1, Len(s.sent)) ELSE @]
   IN IF direct /\ typ \in {"sr", "rw"} /\ s.buf.tr # 0
      THEN [s1 EXCEPT !.pc = "xfer", !.h = [NoH EXCEPT !.direct = TRUE]]        \* first I/O without scheduling
